@@ -499,6 +499,7 @@ func (w *callWorld) exec(k *callKind, how string) (string, string) {
 }
 
 type callsCfg struct {
+	collect bool // the result of the first call may be handed back through Collect* / Sanitize*AndCollect
 	prop   string
 	accept map[string]bool // violation classes this property speaks about
 	length int
@@ -572,7 +573,17 @@ func callsScenario(cfg callsCfg, first int) mc.Scenario {
 						report("nested-call-differs", k.class, "an execution run from inside a user function of "+k.name+" differs from the same execution run alone", nb[j], h.snap)
 					}
 				}
-				w.held = append(w.held, &callHeld{kind: k.name, result: res, dest: dest, snap: got})
+				handBack := 0
+				if cfg.collect && pos == 0 {
+					handBack = x.Choose(3, "handBack") // 0 the caller keeps the result, 1 Collect*, 2 Sanitize*AndCollect
+				}
+				switch handBack {
+				case 0:
+					w.held = append(w.held, &callHeld{kind: k.name, result: res, dest: dest, snap: got})
+				default:
+					hist[len(hist)-1] += []string{"", " -> Collect", " -> SanitizeAndCollect"}[handBack]
+					c07Collect(handBack, asList(res), asMap(res))
+				}
 			}()
 			out.Traces++
 			if panicked != "" {
@@ -626,6 +637,16 @@ func (w *callWorld) classOf(held string) string {
 	return "?"
 }
 
+func asList(r any) z.ZogIssueList {
+	l, _ := r.(z.ZogIssueList)
+	return l
+}
+
+func asMap(r any) z.ZogIssueMap {
+	m, _ := r.(z.ZogIssueMap)
+	return m
+}
+
 func callsLength(tier string) int {
 	if tier == "thorough" {
 		return 3
@@ -640,6 +661,10 @@ func callsItems(tier, prop string, accept ...string) []Item {
 
 // callsItemsFiltered keeps the sequences whose first call satisfies keep.
 func callsItemsFiltered(tier, prop string, keep func(class string) bool, accept ...string) []Item {
+	return callsItemsOpt(tier, prop, keep, false, accept...)
+}
+
+func callsItemsOpt(tier, prop string, keep func(class string) bool, collect bool, accept ...string) []Item {
 	acc := map[string]bool{}
 	for _, a := range accept {
 		acc[a] = true
@@ -655,7 +680,7 @@ func callsItemsFiltered(tier, prop string, keep func(class string) bool, accept 
 		if keep != nil && !keep(kinds[i].class) {
 			continue
 		}
-		items = append(items, Item{Name: fmt.Sprintf("calls/first=%d", i), MaxDevs: devs, Run: callsScenario(callsCfg{prop: prop, accept: acc, length: callsLength(tier)}, i)})
+		items = append(items, Item{Name: fmt.Sprintf("calls/first=%d", i), MaxDevs: devs, Run: callsScenario(callsCfg{prop: prop, accept: acc, length: callsLength(tier), collect: collect}, i)})
 	}
 	return items
 }
